@@ -191,7 +191,15 @@ func (t *T) lookupAtom(key string) *Atom {
 
 // checkAtomLocals: every local variable mentioned in an expression matched by an atom must be assigned at
 // most once in the whole function, so that the atom denotes one value.
-func (t *T) checkAtomLocals(x ast.Expr) {
+func (t *T) checkAtomLocals(x ast.Expr, terms ...string) {
+	exempt := func(name string) bool {
+		for _, tm := range terms {
+			if strings.Contains(tm, "${"+name+"}") {
+				return true
+			}
+		}
+		return false
+	}
 	ast.Inspect(x, func(n ast.Node) bool {
 		id, ok := n.(*ast.Ident)
 		if !ok {
@@ -201,16 +209,55 @@ func (t *T) checkAtomLocals(x ast.Expr) {
 		if !ok || v.IsField() || v.Parent() == nil || v.Parent() == t.p.Types.Scope() || v.Pkg() != t.p.Types {
 			return true
 		}
-		if t.assignCount[v] > 1 && !t.trustLocal[id.Name] {
+		if t.assignCount[v] > 1 && !t.trustLocal[id.Name] && !exempt(id.Name) {
 			t.stopf(id, "atom %q mentions local %s, which is assigned %d times (an atom must denote one value)", canon(x), id.Name, t.assignCount[v])
 		}
 		return true
 	})
 }
 
+// subst replaces ${place} in a spec term by the current Gallina name of a state place (by its canonical text) or
+// of the Go local with that name.
+func (t *T) subst(at ast.Node, term string, e *env) string {
+	for {
+		i := strings.Index(term, "${")
+		if i < 0 {
+			return term
+		}
+		j := strings.Index(term[i:], "}")
+		if j < 0 {
+			t.stopf(at, "spec term %q: unterminated ${", term)
+		}
+		name := term[i+2 : i+j]
+		val := ""
+		if si, ok := t.stIndex[name]; ok {
+			val = e.st[si]
+		} else {
+			for k := len(e.vorder) - 1; k >= 0; k-- {
+				if o := e.vorder[k]; o.Name() == name {
+					if b := e.vars[o]; b != nil && b.set {
+						val = b.name
+					}
+					break
+				}
+			}
+		}
+		if val == "" {
+			t.stopf(at, "spec term %q: ${%s} is neither a state place nor a local with a value here", term, name)
+		}
+		term = term[:i] + val + term[i+j+1:]
+	}
+}
+
 // expr translates a value expression: (Gallina term, Gallina type).
 func (t *T) expr(x ast.Expr, e *env) (string, string) {
+	if h, ok := t.hoisted[x]; ok {
+		return h[0], h[1]
+	}
 	x = unparen(x)
+	if h, ok := t.hoisted[x]; ok {
+		return h[0], h[1]
+	}
 	key := canon(x)
 	if i, ok := t.stIndex[key]; ok {
 		return e.st[i], t.stTypes[i]
@@ -219,8 +266,8 @@ func (t *T) expr(x ast.Expr, e *env) (string, string) {
 		if len(a.Terms) > 0 {
 			t.stopf(x, "multi-valued atom %q used as a single value", key)
 		}
-		t.checkAtomLocals(x)
-		return a.Term, a.Type
+		t.checkAtomLocals(x, a.Term)
+		return t.subst(x, a.Term, e), a.Type
 	}
 	if term, gty, ok := t.constOf(x); ok {
 		return term, gty
@@ -240,6 +287,13 @@ func (t *T) expr(x ast.Expr, e *env) (string, string) {
 		return terms[0], gtys[0]
 	case *ast.IndexExpr:
 		xt, xg := t.expr(n.X, e)
+		if m := t.maps[xg]; m != nil {
+			it, ig := t.expr(n.Index, e)
+			if ig != m.Key {
+				t.stopf(x, "index of Gallina type %q into a map with keys %q", ig, m.Key)
+			}
+			return "(" + m.Get + " " + xt + " " + it + ")", m.GetType
+		}
 		if xg == "list Z" {
 			if _, ok := intKind(t.p.Info.TypeOf(n.Index)); ok {
 				it, _ := t.expr(n.Index, e)
@@ -247,6 +301,28 @@ func (t *T) expr(x ast.Expr, e *env) (string, string) {
 			}
 		}
 		t.stopf(x, "index expression %q is not in the atom table", key)
+	case *ast.SliceExpr:
+		xt, xg := t.expr(n.X, e)
+		if !strings.HasPrefix(xg, "list ") || n.Slice3 {
+			t.stopf(x, "slice expression %q on a value of Gallina type %q", key, xg)
+		}
+		lo := "0"
+		if n.Low != nil {
+			l, g := t.expr(n.Low, e)
+			if g != "Z" {
+				t.stopf(x, "non-integer slice bound")
+			}
+			lo = l
+			xt = "(skipn (Z.to_nat " + l + ") " + xt + ")"
+		}
+		if n.High != nil {
+			h, g := t.expr(n.High, e)
+			if g != "Z" {
+				t.stopf(x, "non-integer slice bound")
+			}
+			xt = "(firstn (Z.to_nat (" + h + " - " + lo + ")) " + xt + ")"
+		}
+		return xt, xg
 	case *ast.SelectorExpr:
 		t.stopf(x, "selector %q is not in the atom table", key)
 	}
@@ -283,7 +359,16 @@ func (t *T) ident(id *ast.Ident, e *env) (string, string) {
 func (t *T) pkgVar(id *ast.Ident, o *types.Var) (string, string) {
 	if o.Pkg() == t.p.Types {
 		if isErrorType(o.Type()) {
-			return `(EVar "` + o.Name() + `"%string)`, "gerr"
+			// a sentinel: a variable initialised once by a constructor call; its identity is its name
+			switch init := unparen(t.p.pkgVarInit(o)).(type) {
+			case *ast.CallExpr:
+				return `(EVar "` + o.Name() + `"%string)`, "gerr"
+			case *ast.Ident:
+				if _, isNil := t.p.Info.Uses[init].(*types.Nil); isNil {
+					return "ENil", "gerr"
+				}
+			}
+			t.stopf(id, "package-level error variable %s is not initialised by a constructor call or nil", o.Name())
 		}
 		if isNamed(o.Type(), "KafkaVersion") {
 			if init := t.p.pkgVarInit(o); init != nil {
@@ -598,24 +683,32 @@ func (t *T) argTerm(n *ast.CallExpr, i int, e *env) string {
 func (t *T) call(n *ast.CallExpr, e *env) ([]string, []string) {
 	key := canon(n)
 	if a := t.lookupAtom(key); a != nil {
-		t.checkAtomLocals(n)
 		if len(a.Terms) > 0 {
-			return a.Terms, a.Types
+			t.checkAtomLocals(n, a.Terms...)
+			out := make([]string, len(a.Terms))
+			for i, s := range a.Terms {
+				out[i] = t.subst(n, s, e)
+			}
+			return out, a.Types
 		}
-		return []string{a.Term}, []string{a.Type}
+		t.checkAtomLocals(n, a.Term)
+		return []string{t.subst(n, a.Term, e)}, []string{a.Type}
 	}
 	fkey := canon(n.Fun)
 	if cs := t.calls[fkey]; cs != nil {
-		t.checkAtomLocals(n.Fun)
+		if cs.Emit != "" && !t.allowEmit {
+			t.stopf(n, "call %q has an effect (emit): it may only be a statement or a whole right-hand side", key)
+		}
+		t.checkAtomLocals(n.Fun, append([]string{cs.Term}, cs.Terms...)...)
 		arg := func(i int) string { return t.argTerm(n, i, e) }
 		if len(cs.Terms) > 0 {
 			out := make([]string, len(cs.Terms))
 			for i, s := range cs.Terms {
-				out[i] = substArgs(s, arg)
+				out[i] = t.subst(n, substArgs(s, arg), e)
 			}
 			return out, cs.Types
 		}
-		return []string{"(" + substArgs(cs.Term, arg) + ")"}, []string{cs.Type}
+		return []string{"(" + t.subst(n, substArgs(cs.Term, arg), e) + ")"}, []string{cs.Type}
 	}
 	if _, ok := t.streamIdx[fkey]; ok {
 		t.stopf(n, "oracle call %q may only be the whole right-hand side of an assignment or a statement", key)
@@ -659,6 +752,14 @@ func (t *T) call(n *ast.CallExpr, e *env) ([]string, []string) {
 			t.stopf(n, "len of a value of Gallina type %q", ga)
 		}
 	case "append":
+		if len(n.Args) == 2 && n.Ellipsis.IsValid() {
+			a, ga := t.expr(n.Args[0], e)
+			b, gb := t.expr(n.Args[1], e)
+			if strings.HasPrefix(ga, "list ") && ga == gb {
+				return []string{"(" + a + " ++ " + b + ")"}, []string{ga}
+			}
+			t.stopf(n, "append of a %q to a %q", gb, ga)
+		}
 		if len(n.Args) == 2 && !n.Ellipsis.IsValid() {
 			a, ga := t.expr(n.Args[0], e)
 			if strings.HasPrefix(ga, "list ") {
